@@ -15,14 +15,6 @@ Proof.
   split; cbn [fst snd mk_key]; [reflexivity | exact Hne].
 Qed.
 
-Definition gen_fund (st : option state) (e : addr * list addr * coins * bool) : option state :=
-  match st with
-  | None => None
-  | Some s =>
-      let '(to, froms, c, decl) := e in
-      set_record s to {| q_unacc := froms; q_acc := []; q_coins := c; q_declined := decl |}
-  end.
-
 Lemma fold_gen_fund_none l : fold_left gen_fund l None = None.
 Proof. induction l as [|e l IH]; cbn [fold_left]; [reflexivity | exact IH]. Qed.
 
@@ -63,24 +55,106 @@ Proof.
   destruct (set_auto_frame s to from r) as (A2 & B2 & C2 & D2). repeat split; congruence.
 Qed.
 
-(** every genesis the model accepts yields a good state (records with non-negative coins assumed,
-    which Coins.Validate of the genesis guarantees) *)
-Lemma genesis_good g s :
-  init_genesis g = Some s ->
-  Forall (fun e : addr * list addr * coins * bool => forall d, 0 <= amt (snd (fst e)) d) (g_funds g) ->
-  good s /\ s_xfer s = g_xfer g.
+Definition fund_nn (e : addr * list addr * coins * bool) : Prop := forall d, 0 <= amt (snd (fst e)) d.
+Definition fund_senders (e : addr * list addr * coins * bool) : list addr := snd (fst (fst e)).
+
+Lemma funds_total_cons e funds d : funds_total (e :: funds) d = amt (snd (fst e)) d + funds_total funds d.
+Proof. reflexivity. Qed.
+
+(* the records never hold more than the imported entries add up to *)
+Lemma gen_funds_total_le funds : forall s s',
+  good s -> Forall fund_nn funds -> fold_left gen_fund funds (Some s) = Some s' ->
+  forall d, rec_total (s_recs s') d <= rec_total (s_recs s) d + funds_total funds d.
 Proof.
-  unfold init_genesis. intros H Hnn.
-  set (s1 := fold_left opt_in (g_optin g) _) in H.
-  set (s2 := fold_left _ (g_auto g) s1) in H.
-  change (fold_left gen_fund (g_funds g) (Some s2) = Some s) in H.
-  destruct (fold_gen_auto_frame (g_auto g) s1) as (A2 & B2 & C2 & _). fold s2 in A2, B2, C2.
-  destruct (fold_opt_in_frame2 (g_optin g) (empty_state (bal_of_list (g_bal g)) (g_xfer g))) as (A1 & B1 & C1 & _).
-  fold s1 in A1, B1, C1. cbn [s_recs s_idx s_xfer empty_state] in A1, B1, C1.
+  induction funds as [|[[[to froms] c] decl] funds IH]; intros s s' Hg Hnn; cbn [fold_left].
+  - intros [= <-] d. cbn. lia.
+  - inversion Hnn as [|? ? Hc Hnn']; subst. unfold fund_nn in Hc. cbn [fst snd] in Hc.
+    cbn [gen_fund]. set (r := {| q_unacc := froms; q_acc := []; q_coins := c; q_declined := decl |}).
+    destruct (set_record s to r) as [s1|] eqn:E; [|rewrite fold_gen_fund_none; discriminate].
+    intros Hf d.
+    assert (Hg1 : good s1).
+    { apply (gen_funds_good [(to, froms, c, decl)] s s1 Hg); [constructor; [exact Hc | constructor]|].
+      cbn [fold_left gen_fund]. exact E. }
+    specialize (IH _ _ Hg1 Hnn' Hf d). rewrite funds_total_cons. cbn [fst snd].
+    destruct Hg as (Hw & _ & Hn).
+    apply set_record_full in E. destruct E as (_ & _ & _ & Hr & _).
+    assert (Hle : rec_total (s_recs s1) d <= rec_total (s_recs s) d + amt c d).
+    { rewrite Hr. pose proof (old_nn (s_recs s) (mk_key to (all_froms r)) d Hn) as Ho. specialize (Hc d).
+      destruct (fully_accepted r).
+      - rewrite rec_total_rdel by apply Hw. lia.
+      - rewrite rec_total_rset by apply Hw. cbn [q_coins r]. lia. }
+    lia.
+Qed.
+
+Lemma gen_funds_some funds : forall s,
+  (exists s', fold_left gen_fund funds (Some s) = Some s') <-> Forall (fun e => fund_senders e <> []) funds.
+Proof.
+  induction funds as [|[[[to froms] c] decl] funds IH]; intros s; cbn [fold_left].
+  - split; [constructor | intros _; eexists; reflexivity].
+  - cbn [gen_fund]. set (r := {| q_unacc := froms; q_acc := []; q_coins := c; q_declined := decl |}).
+    destruct froms as [|f0 fr] eqn:Ef.
+    + split.
+      * intros [s' H]. unfold set_record in H. cbn in H. rewrite fold_gen_fund_none in H. discriminate.
+      * intros H. inversion H as [|? ? H1 _]. exfalso. apply H1. reflexivity.
+    + destruct (set_record_some s to r) as [s1 E1]; [unfold all_froms, r; cbn; discriminate|].
+      rewrite E1. rewrite IH. split.
+      * intros H. constructor; [unfold fund_senders; cbn; discriminate | exact H].
+      * intros H. inversion H; assumption.
+Qed.
+
+Lemma funds_total_notin funds d : ~ In d (funds_denoms funds) -> funds_total funds d = 0.
+Proof.
+  induction funds as [|e funds IH]; intros Hn; [reflexivity|]. rewrite funds_total_cons.
+  unfold funds_denoms in Hn. cbn [flat_map] in Hn.
+  rewrite IH by (intros Hi; apply Hn, in_or_app; right; exact Hi).
+  rewrite amt_notin by (intros Hi; apply Hn, in_or_app; left; exact Hi). lia.
+Qed.
+
+(** C07_genesis_good: InitGenesis accepts a genesis exactly when every record has a sender and the
+    holder holds the imported total in every denom; what it accepts is a good state in which the
+    holder covers the records *)
+Lemma genesis_good h g :
+  Forall fund_nn (g_funds g) ->
+  (init_genesis h g <> None <->
+     Forall (fun e => fund_senders e <> []) (g_funds g) /\
+     forall d, In d (funds_denoms (g_funds g)) -> funds_total (g_funds g) d <= bal_of_list (g_bal g) h d) /\
+  (forall s, init_genesis h g = Some s ->
+     good s /\ s_xfer s = g_xfer g /\ s_bal s = bal_of_list (g_bal g) /\
+     ((forall d, 0 <= bal_of_list (g_bal g) h d) -> covers h s)).
+Proof.
+  intros Hnn. unfold init_genesis.
+  set (s1 := fold_left opt_in (g_optin g) _).
+  set (s2 := fold_left _ (g_auto g) s1).
+  destruct (fold_gen_auto_frame (g_auto g) s1) as (A2 & B2 & C2 & D2). fold s2 in A2, B2, C2, D2.
+  destruct (fold_opt_in_frame2 (g_optin g) (empty_state (bal_of_list (g_bal g)) (g_xfer g))) as (A1 & B1 & C1 & D1).
+  fold s1 in A1, B1, C1, D1. cbn [s_recs s_idx s_xfer s_bal empty_state] in A1, B1, C1, D1.
   assert (Hg2 : good s2).
   { unfold good, wf, idx_sound, recs_nn. rewrite A2, A1, B2, B1. split; [split; constructor|]. split; [|constructor].
     intros k r Hk. discriminate. }
-  destruct (gen_funds_good _ _ _ Hg2 Hnn H) as (A & B & _). split; [exact A | congruence].
+  assert (Hcheck : forall s, s_bal s = bal_of_list (g_bal g) ->
+            (forallb (fun d => funds_total (g_funds g) d <=? s_bal s h d) (funds_denoms (g_funds g)) = true <->
+             forall d, In d (funds_denoms (g_funds g)) -> funds_total (g_funds g) d <= bal_of_list (g_bal g) h d)).
+  { intros s Hb. rewrite forallb_forall, Hb. split; intros H d Hd; [apply Z.leb_le, H, Hd | apply Z.leb_le, H, Hd]. }
+  split.
+  - destruct (fold_left gen_fund (g_funds g) (Some s2)) as [s|] eqn:Ef.
+    + destruct (gen_funds_good _ _ _ Hg2 Hnn Ef) as (_ & _ & Hb).
+      assert (Hbs : s_bal s = bal_of_list (g_bal g)) by congruence.
+      assert (Hsome : Forall (fun e => fund_senders e <> []) (g_funds g)) by (apply (gen_funds_some _ s2); exists s; exact Ef).
+      destruct (forallb _ _) eqn:Ec.
+      * split; [intros _; split; [exact Hsome | exact (proj1 (Hcheck s Hbs) Ec)] | discriminate].
+      * split; [intros H; exfalso; apply H; reflexivity|]. intros [_ H]. pose proof (proj2 (Hcheck s Hbs) H). congruence.
+    + split; [intros H; exfalso; apply H; reflexivity|]. intros [H _].
+      apply (gen_funds_some _ s2) in H. destruct H as [s' H]. congruence.
+  - intros s. destruct (fold_left gen_fund (g_funds g) (Some s2)) as [s'|] eqn:Ef; [|discriminate].
+    destruct (forallb _ _) eqn:Ec; [|discriminate]. intros [= <-].
+    destruct (gen_funds_good _ _ _ Hg2 Hnn Ef) as (A & B & Hb).
+    assert (Hbs : s_bal s' = bal_of_list (g_bal g)) by congruence.
+    split; [exact A|]. split; [congruence|]. split; [exact Hbs|].
+    intros Hpos d. pose proof (gen_funds_total_le _ _ _ Hg2 Hnn Ef d) as Hle.
+    assert (H0 : rec_total (s_recs s2) d = 0) by (rewrite A2, A1; reflexivity). rewrite H0 in Hle.
+    destruct (in_dec Pos.eq_dec d (funds_denoms (g_funds g))) as [Hi|Hi].
+    + pose proof (proj1 (Hcheck s' Hbs) Ec d Hi). rewrite Hbs. lia.
+    + rewrite (funds_total_notin _ _ Hi) in Hle. rewrite Hbs. specialize (Hpos d). lia.
 Qed.
 
 (** * Accept: payout liveness *)
